@@ -430,6 +430,13 @@ def run_shard(spec, shard):
 
     def sbody(r):
         doc = diff.make_doc(r, "quick", names=["a", "b", "c"], falsy_bias=0.1)
+        if r.random() < 0.25:
+            # a wide value (hundreds of waiting nodes) around a small nested array structure: orderings of the
+            # arrays are completely fixed by RFC 9535, whatever the traversal does with large queues
+            pad = [r.choice([0, "x", None]) for _ in range(r.choice([100, 300, 511, 512, 513, 600, 1100]))]
+            core = r.choice([[[[1], [2]]], [[1, [2, [3]]], [[4], 5]], {"a": [[1], [2], [3]]}, [[[["a"], ["b"]], [["c"]]]]])
+            k = r.randrange(3)
+            doc = [core] + pad if k == 0 else pad + [core] if k == 1 else pad[: len(pad) // 2] + [core] + pad[len(pad) // 2:]
         ast, text = gen_query(r, shard, doc, nseg_max=r.choice([1, 1, 2, 3]))
         case = {"kind": "sampled", "q": text, "ast": ast, "doc": doc, "seeds": [r.randrange(10**9) for _ in range(6)]}
         shard.case(key=(text, doc, "sampled"), nontrivial="descendant" in Q.features(ast) or "wild" in Q.features(ast),
